@@ -331,7 +331,9 @@ def handshake(out, mc, pending):
             continue
         n += 1
         fin = [e for e in p.trace if re.search(r"Connection::initialize_finish$", e.get("short", ""))]
-        errs = [e for e in p.trace if re.search(r"Sender.*::send$|ServerContext::send$", e["callee"]) and "Response::new_err" in " ".join(e["akeys"])]
+        # an answer to the initialize request: a Response (ok or error) built from the id initialize_start handed over
+        errs = [e for e in p.trace if re.search(r"Sender.*::send$|ServerContext::send$", e["callee"])
+                and re.search(r"Response::new_(err|ok),\(opq:\(+call,(lsp_server::)?Connection::initialize_start", " ".join(e["akeys"]))]
         if len(fin) + len(errs) != 1:
             fails.append("%d answers to the initialize request on a completed path" % (len(fin) + len(errs)))
         for e in fin:
@@ -344,6 +346,123 @@ def handshake(out, mc, pending):
     if fails:
         ob.status = "pending"
         ob.detail = "; ".join(sorted(set(fails)))[:600]
+        pending.append((ob, fails))
+    else:
+        ob.status = "pass"
+
+
+def preinit_window(out, mc, pending):
+    """run_ls: between the initialize response and the `initialized` notification a request is answered, not fatal"""
+    fns = mc.fns("emmylua_ls", r"^fn run_ls")
+    fn = [f for f in fns if f.name == "run_ls::{closure#0}"]
+    ob = out.add(Obligation("handshake/request_before_initialized_is_answered", "M",
+                            "run_ls: the wait for `initialized` is not left to lsp_server::Connection::initialize_finish (contract: any other message is a fatal protocol error, unanswered); "
+                            "on every path on which a message received before the main loop can be a Request, a Response built from that request is sent before the next receive or return",
+                            {"function": "run_ls::{closure#0}", "messages_before_initialized": "<= 2 (loop heads visited 3 times)"}, [f.name for f in fn]))
+    if len(fn) != 1:
+        ob.status = "inconclusive"
+        ob.detail = "run_ls not found"
+        return
+    i_req = ENUMS["Message"].index("Request")
+    ex = symex.Executor(fns, enums=ENUMS, max_visits=symex.visits(3))
+    st = symex.State()
+    paths = ex.run(fn[0], coroutine_args(ex, st), st)
+    fails = []
+    n = 0
+    for p in paths:
+        if p.kind in ("cut", "diverge"):
+            continue
+        evs = p.trace
+        names = [e.get("short", e["callee"]) for e in evs]
+        if any(re.search(r"Connection::initialize_finish(_while)?$", x) for x in names):
+            fails.append("the wait for `initialized` is done by lsp_server's initialize_finish: a request that arrives first ends the server unanswered")
+            n += 1
+            continue
+        for i, e in enumerate(evs):
+            if not re.search(r"Receiver.*::recv$", e["callee"]) or not isinstance(e["result"], symex.Opaque):
+                continue
+            res = e["result"]
+            d_res = ex.discriminant(p.state, res)
+            msg = symex.LazyPayload(ex, p.state, res, "Ok")[0]
+            d_msg = ex.discriminant(p.state, msg)
+            r, _ = mc.check(list(p.pc) + [d_res.term == z3.BitVecVal(0, 64), d_msg.term == z3.BitVecVal(i_req, 64)], "request_possible")
+            if r != "sat":
+                continue
+            n += 1
+            nxt = next((j for j in range(i + 1, len(evs)) if re.search(r"Receiver.*::recv$|main_loop$", evs[j]["callee"])), len(evs))
+            rk = symex.kfmt(res.k)
+            sends = [g for g in evs[i + 1:nxt] if re.search(r"Sender.*::send$", g["callee"]) and re.search(r"Response::new_(err|ok)", " ".join(g["akeys"])) and "recv" in " ".join(g["akeys"])]
+            if not sends:
+                fails.append("a request received before `initialized` is not answered")
+    ob.witness = n > 0
+    ob.extra = {"receive_points_where_a_request_is_possible": n}
+    if n == 0:
+        fails.append("no receive point between the initialize response and the main loop was found")
+    if fails:
+        ob.status = "pending"
+        ob.detail = "; ".join(sorted(set(fails)))[:500]
+        pending.append((ob, fails))
+    else:
+        ob.status = "pass"
+
+
+def shutdown_window(out, mc, pending):
+    """AsyncConnection::handle_shutdown: between the shutdown response and `exit`, a request is still answered"""
+    fns = mc.fns("emmylua_ls", r"handle_shutdown")
+    fn = [f for f in fns if f.name.endswith("handle_shutdown::{closure#0}")]
+    ob = out.add(Obligation("shutdown/request_after_shutdown_is_answered", "M",
+                            "handle_shutdown: on every path on which the message awaited after the shutdown response can be a Request, a Response carrying that request's id is sent "
+                            "before the function waits again or returns (z3: timeout outcome, Option and Message kind of the received value are free)",
+                            {"function": "AsyncConnection::handle_shutdown (async body, awaits complete)", "messages_after_shutdown": "<= 2 (loop head visited 3 times)"}, [f.name for f in fn]))
+    if len(fn) != 1:
+        ob.status = "inconclusive"
+        ob.detail = "handle_shutdown: %d candidates" % len(fn)
+        return
+    msg_variants = ENUMS.get("Message") or ["Request", "Response", "Notification"]
+    i_req = msg_variants.index("Request")
+    ex = symex.Executor(fns, enums=ENUMS, max_visits=symex.visits(3))
+    st = symex.State()
+    paths = ex.run(fn[0], coroutine_args(ex, st), st)
+    fails = []
+    n = 0
+    for p in paths:
+        if p.kind == "cut":
+            continue
+        if p.kind != "return":
+            fails.append("path kind %s" % p.kind)
+            continue
+        evs = p.trace
+        for i, e in enumerate(evs):
+            if e["callee"] != "<await>":
+                continue
+            res = None
+            # the value of the await is the destination of the poll: recover it from the key
+            key = ("await", e["args"][0])
+            ty = "std::result::Result<std::option::Option<lsp_server::Message>, tokio::time::error::Elapsed>"
+            res = symex.Opaque(ty, key)
+            d_res = ex.discriminant(p.state, res)
+            opt = symex.LazyPayload(ex, p.state, res, "Ok")[0]
+            d_opt = ex.discriminant(p.state, opt)
+            msg = symex.LazyPayload(ex, p.state, opt, "Some")[0]
+            d_msg = ex.discriminant(p.state, msg)
+            q = [d_res.term == z3.BitVecVal(0, 64), d_opt.term == z3.BitVecVal(1, 64), d_msg.term == z3.BitVecVal(i_req, 64)]
+            r, _ = mc.check(list(p.pc) + q, "request_possible")
+            if r != "sat":
+                continue
+            n += 1
+            nxt = next((j for j in range(i + 1, len(evs)) if evs[j]["callee"] == "<await>"), len(evs))
+            sends = [g for g in evs[i + 1:nxt] if re.search(r"Sender.*::send$", g["callee"]) and re.search(r"Response::new_(err|ok)", " ".join(g["akeys"]))]
+            mk = symex.kfmt(msg.k) if isinstance(msg, symex.Opaque) else "?"
+            mine = [g for g in sends if "await" in " ".join(g["akeys"])]
+            if not mine:
+                fails.append("a request received after shutdown is not answered (the function %s)" % ("returns an error and the server ends" if nxt == len(evs) else "waits for the next message"))
+    ob.witness = n > 0
+    ob.extra = {"await_points_where_a_request_is_possible": n, "paths": len(paths)}
+    if n == 0:
+        fails.append("no await after the shutdown response")
+    if fails:
+        ob.status = "pending"
+        ob.detail = "; ".join(sorted(set(fails)))[:500]
         pending.append((ob, fails))
     else:
         ob.status = "pass"
@@ -393,6 +512,8 @@ def replay(out, pending):
         extra["cancel_during_init"] = lspdrive.session_cancel_during_init(exe)
         extra["cancel_in_flight"] = lspdrive.session_cancel_in_flight(exe)
         extra["bad_initialize"] = {k: v for k, v in lspdrive.session_bad_initialize(exe).items() if k != "alive"}
+        extra["after_shutdown"] = lspdrive.session_after_shutdown(exe)
+        extra["before_initialized"] = lspdrive.session_before_initialized(exe)
     for ob, fails in pending:
         if not exe:
             ob.status = "inconclusive"
@@ -429,7 +550,7 @@ def run(out):
                      "ServerMessageProcessor::handle_message (async body)"]
     out.bounds = {"paths": "all paths from state 0 of each async state machine with awaits completing; every method arm, extract Ok/Err, cancelled/not, handler Some/None"}
     out.outside = ["a handler that panics inside the spawned task (no catch_unwind; unwinding edges are not followed)",
-                   "what lsp_server::Connection::initialize_start does with messages that arrive before a valid initialize (library code)",
+                   "what lsp_server::Connection::initialize_start does with messages that arrive before a valid initialize (library code: requests get ServerNotInitialized)",
                    "tokio scheduling, ordering between tasks, the transport"]
     out.assumptions = ["awaits complete (Future::poll returns Ready)", "ServerContext::send and crossbeam Sender::send deliver the message",
                        "Request::extract returns Ok((id of the request, params)) or Err (lsp_server contract)",
@@ -442,6 +563,8 @@ def run(out):
         task_wrapper(out, mc, fns, pending)
         routing(out, mc, fns, pending)
         handshake(out, mc, pending)
+        shutdown_window(out, mc, pending)
+        preinit_window(out, mc, pending)
     except (symex.Unsupported, RuntimeError, KeyError, ValueError, IndexError, AttributeError) as e:
         import traceback
         out.fatal = "engine M could not encode the current source: %r\n%s" % (e, traceback.format_exc()[-1500:])
